@@ -113,6 +113,25 @@ def run(c):
                 break
     except vlib.BuildError as e:
         c.proof_failed.append({"model_build": str(e)[-1500:]})
+    # one large code (n above 2^15: seed C04h narrowed the entry coordinates of the sparse matrix to 16 bits): every call is made, the state
+    # is reported after the last one only (api 2); the python closure oracle decides (the extracted model is not run at this size)
+    for (k, r) in ([(29000, 7000)] if c.tier == "quick" else [(29000, 7000), (43000, 7000), (20000, 16000)]):
+        n = k + r
+        S = [e for e in range(n) if e >= k or c.rng.below(100) < 93]
+        c.rng.shuffle(S)
+        big = "D 3 %d %d 1 3 %d %d 2 0 0 2 %s" % (k, r, c.rng.rng(1, 2 ** 31 - 2), c.rng.below(10 ** 9), " ".join(map(str, S)))
+        bans, bcr = ldpc.run_dec(c.snap, [big], timeout=1800)
+        a = ldpc.Ans(bans[0])
+        if a.crash or a.P != 0 or a.Q != 0 or a.H is None or not a.steps:
+            c.violation("large LDPC session k=%d r=%d crashed or was rejected: %s" % (k, r, bans[0][:200]), "dec-crash", {"stream": "dec", "request": big[:300]})
+        else:
+            cl = ldpc.peel_closure(a.H, {ldpc.col_of(k, r, e) for e in S} | ({r - 1} if a.LN == "1" else set()))
+            want = "".join("1" if (s_ + r) in cl else "0" for s_ in range(k))
+            st, comp, sm, rm = a.steps[-1]
+            prefixes += 1
+            if sm != want or comp != (1 if want.count("1") == k else 0) or st != 0:
+                c.violation("k=%d r=%d N1=3: after %d calls %d sources are available (complete=%d, status=%d), the peeling closure holds %d" %
+                            (k, r, len(S), sm.count("1"), comp, st, want.count("1")), "it-closure", {"stream": "dec", "request": big[:300] + " ...", "n": n})
     c.cov["evaluations"] = prefixes
     c.cov["distinct_nontrivial"] = len(distinct)
     c.cov["traces_validated_against_impl"] = len(midx)
